@@ -18,6 +18,8 @@ CHECKS = {
     "C05": ("vf.checks_wire", "c05"),
     "C06": ("vf.checks_wire", "c06"),
     "C07": ("vf.checks_wire", "c07"),
+    "C08": ("vf.checks_wire", "c08"),
+    "C09": ("vf.checks_wire", "c09"),
     "C18": ("vf.checks_wire", "c18"),
     "C19": ("vf.checks_wire", "c19"),
 }
